@@ -104,7 +104,7 @@ def gen_device(rng, kind=None):
 
 
 def gen(rng, tier):
-    n = 36 if tier == "quick" else 2000
+    n = 48 if tier == "quick" else 2000
     scenarios = []
     # corpus: the D17 shape - notes held, LED loop running, at least one full LED cycle between the last event and close
     for off in (12000, 15000, 21000):
